@@ -111,9 +111,54 @@ static void *worker_main(void *arg)
   return NULL;
 }
 
+/* ---- mode C: registry churn. Two or three threads run many short init/load/export/destroy cycles, so that the number of live
+ * topologies of the process keeps going through zero: the component registry is torn down by the thread that destroys the last
+ * topology while the others are creating theirs. Every call of a cycle must succeed and give the single-threaded result. ---- */
+struct churn { pthread_t th; unsigned tid, cycles, failures; int first_errno; const char *first_what; uint64_t digest; pthread_barrier_t *bar; };
+static const char *const CHURN_DESC[] = { "pu:2", "numa:2 pu:2", "pack:2 core:2 pu:1", "[numa] l2:2 pu:2" };
+static void churn_cycles(struct churn *c)
+{
+  uint64_t dg = 9;
+  for (unsigned k = 0; k < c->cycles; k++) {
+    hwloc_topology_t t; const char *what = NULL; int e = 0;
+    errno = 0;
+    if (hwloc_topology_init(&t) != 0) { what = "hwloc_topology_init"; e = errno; }
+    else {
+      if (hwloc_topology_set_synthetic(t, CHURN_DESC[(c->tid + k) % 4]) != 0) { what = "hwloc_topology_set_synthetic"; e = errno; }
+      else if (hwloc_topology_load(t) != 0) { what = "hwloc_topology_load"; e = errno; }
+      else { dg = hv_hash_u64((uint64_t)hwloc_get_nbobjs_by_type(t, HWLOC_OBJ_PU) * 64 + (uint64_t)hwloc_topology_get_depth(t), dg);
+        if ((k + c->tid) % 8 == 0) { char *b = NULL; int l = 0; if (hwloc_topology_export_xmlbuffer(t, &b, &l, 0) != 0) { what = "hwloc_topology_export_xmlbuffer"; e = errno; } else { dg = hv_hash_u64((uint64_t)l, dg); hwloc_free_xmlbuffer(t, b); } } }
+      hwloc_topology_destroy(t);
+    }
+    if (what) { if (!c->failures) { c->first_what = what; c->first_errno = e; } c->failures++; }
+    if (k % 16 == c->tid) sched_yield();
+  }
+  c->digest = dg;
+}
+static void *churn_main(void *arg) { struct churn *c = arg; pthread_barrier_wait(c->bar); churn_cycles(c); return NULL; }
+
 void hv_case(uint64_t index)
 {
   struct hv_rng R; hv_rng_seed(&R, HV.seed, "c17", index);
+  if (index % 8 == 7) {
+    unsigned nt = 2 + (unsigned)hv_below(&R, 2), cycles = 150 + (unsigned)hv_below(&R, 150);
+    pthread_barrier_t cb; pthread_barrier_init(&cb, NULL, nt);
+    struct churn c[3]; hv_desc("registry churn: %u threads x %u init/load/destroy cycles\n", nt, cycles);
+    hv_ctxkey("churn:threads");
+    for (unsigned k = 0; k < nt; k++) { memset(&c[k], 0, sizeof c[k]); c[k].tid = k; c[k].cycles = cycles; c[k].bar = &cb; pthread_create(&c[k].th, NULL, churn_main, &c[k]); }
+    for (unsigned k = 0; k < nt; k++) pthread_join(c[k].th, NULL);
+    pthread_barrier_destroy(&cb);
+    hv_ctxkey("churn:reference");
+    for (unsigned k = 0; k < nt; k++) {
+      if (c[k].failures) { hv_viol("churn.call_failed", "thread %u of %u: %u of its %u private init/load/export/destroy cycles failed, first in %s (errno %d), while other threads created and destroyed their own topologies", k, nt, c[k].failures, cycles, c[k].first_what, c[k].first_errno); break; }
+      struct churn ref; memset(&ref, 0, sizeof ref); ref.tid = k; ref.cycles = cycles; churn_cycles(&ref);
+      if (ref.digest != c[k].digest) { hv_viol("churn.result_differs", "thread %u of %u computed digest %llx concurrently and %llx alone", k, nt, (unsigned long long)c[k].digest, (unsigned long long)ref.digest); break; }
+    }
+    hv_stat("churn.groups", 1); hv_stat("churn.threads", nt); hv_stat("churn.cycles", (uint64_t)nt * cycles);
+    hv_distinct(3, hv_hash_u64(index, nt * 1000 + cycles));
+    hv_ctxkey("%s", "");
+    return;
+  }
   unsigned nt = 4 + (unsigned)hv_below(&R, 9);
   pthread_barrier_t bar; pthread_barrier_init(&bar, NULL, nt);
   if (index % 2 == 0) {
@@ -130,6 +175,26 @@ void hv_case(uint64_t index)
     /* annotations, then restricts: they invalidate the distances / memattr object caches that refresh() must rebuild */
     unsigned na = 4 + (unsigned)hv_below(&R, 10);
     for (unsigned k = 0; k < na; k++) { struct hx_result res; hx_random_op(&h, HX_ANNOTATE | (k > na / 2 ? (1u << HX_RESTRICT) : 0), &res); hv_desc("  %s -> %d\n", res.desc, res.rc); }
+    if (index % 3 == 0) {
+      /* several distances structures, then one restrict that removes the objects of the first one (it becomes useless and is dropped)
+       * and some objects of the following ones (they shrink): refresh() has to bring every structure up to date, not only some */
+      unsigned np = (unsigned)hwloc_get_nbobjs_by_type(t, HWLOC_OBJ_PU);
+      if (np >= 4 && np <= 64) {
+        hwloc_obj_t objs[64]; uint64_t vals[64 * 64]; for (unsigned i = 0; i < np; i++) objs[i] = hwloc_get_obj_by_type(t, HWLOC_OBJ_PU, i);
+        for (unsigned i = 0; i < np * np; i++) vals[i] = 10 + (i % np == i / np ? 0 : 1 + i % 7);
+        static const char *const nm[] = { "first-two", "all-a", NULL, "all-b", "last-two" };
+        for (unsigned q = 0; q < 5; q++) {
+          hwloc_distances_add_handle_t hd = hwloc_distances_add_create(t, nm[q], HWLOC_DISTANCES_KIND_FROM_USER | HWLOC_DISTANCES_KIND_VALUE_LATENCY, 0);
+          unsigned n = q == 0 || q == 4 ? 2 : np; hwloc_obj_t *o = q == 4 ? objs + np - 2 : objs;
+          if (hd && hwloc_distances_add_values(t, hd, n, o, vals, 0) == 0 && hwloc_distances_add_commit(t, hd, 0) == 0) hv_stat("readers.directed_distances_added", 1);
+        }
+        hwloc_bitmap_t keep = hwloc_bitmap_alloc(); for (unsigned i = np / 2; i < np; i++) hwloc_bitmap_or(keep, keep, objs[i]->cpuset);
+        int rr = hwloc_topology_restrict(t, keep, hv_chance(&R, 1, 2) ? HWLOC_RESTRICT_FLAG_REMOVE_CPULESS : 0);
+        hv_desc("  5 user distances (first two PUs / all PUs x3 / last two PUs), then restrict to the second half of the PUs -> %d\n", rr);
+        if (rr == 0) hv_stat("readers.directed_restrict_dropping_first_structure", 1);
+        hwloc_bitmap_free(keep);
+      }
+    }
     hv_ctxkey("readers:refresh");
     hwloc_topology_refresh(t);
     /* the threads are the first to consult the topology after refresh(): nothing may be left for them to refill lazily.
